@@ -6,6 +6,17 @@ import os
 V = os.path.dirname(os.path.dirname(os.path.abspath(__file__)))
 TLC = "TLA+ spec + TLC"
 CHECKS = {
+    "C11": dict(
+        text="DER.tla gives X.690 canonical encoders and decoders *defined from them* (accept iff re-encoding the value reproduces the "
+             "consumed bytes, remainder = unconsumed suffix, declared length <= bytes present) plus a design layer transcribing "
+             "der.remove_*/read_* statement by statement. TLC checks the transcription against the definition on every byte string "
+             "of <= 3 bytes for 11 (19 thorough) first bytes and round trips over structured value domains; every recorded call of the "
+             "real readers/encoders (all strings <= 2 bytes, 3-byte strings per own tag, every first byte, structured TLVs with "
+             "inflated/deflated/long-form length fields, truncations, trailing bytes) is decided by TLC trace validation.",
+        note="Trusted: TLC, CPython to build inputs. OID arcs / lengths >= 2^31 are outside the model (exception class only). "
+             "Inputs longer than 3 bytes are structured, not exhaustive.",
+        technique="TLC refinement check (design-layer readers vs definitional decoders) + TLC trace validation (C->S) of recorded der.py calls",
+        ref="3/C11"),
     "C12": dict(
         text="SigCodec.tla + DER.tla define the three signature encodings and their strict decoders on byte sequences. TLC checks on the model that decode inverts encode for all orders 2..24 (64 thorough) x all (r, s) and boundary orders, that raw length is 2*ceil(bitlen/8), and that every accepted raw / DER candidate (all 2-byte raw strings; all strings over a small alphabet up to 8-9 bytes) is the canonical encoding of what it decodes to. Every recorded call of the real encoders, decoders and integer/byte helpers (toy orders exhaustively, 17 curve orders with boundary values, all byte strings <= 2 bytes, DER mutation corpus) is then decided by TLC trace validation.",
         note="Trusted: TLC, CPython used to build inputs. Decoder inputs beyond 2 bytes are structured mutations, not exhaustive.",
